@@ -37,6 +37,7 @@ RULE = (
 def gen_case(rng, tier):
     prof = G.default_profile(rng, tier)
     prof["relaunch"] = rng.choice([0, 0, 0.2])
+    prof["multiblock"] = rng.choice([0, 0, 0, 0.4])  # a function of several blocks (cf.cond_br / cf.br)
     prof["switches"] = rng.choice([0, 0, 0, 0.3])  # two-way branches written as scf.index_switch
     prof["partial"] = rng.choice([0, 0, 0.4])  # setups that only write some of the fields
     prof["local_callee"] = rng.choice([0, 0, 0.5])  # calls to a function of the module that sets up an accelerator itself
@@ -124,7 +125,7 @@ def _guarded_pull(original):
 def _kf_c01_1(case, outcome):
     """the violation disappears when setup fields are only pulled out of loops that are known to run (and only then it is this
     finding); the program must have a setup that does not write every field - otherwise every launch re-writes everything"""
-    if outcome.get("oracle") != "launch-history" or not _has_partial(case["ast"]["body"]):
+    if outcome.get("oracle") != "launch-history" or not _has_partial(case["ast"]["body"] + [x for b in case["ast"].get("blocks", []) for x in b]):
         return False
     # ... and in the failing environment some loop really does not iterate
     env = case["envs"][outcome.get("env_index") or 0]
